@@ -1,9 +1,7 @@
 import os
 import re
 
-from orchestrate.common import run_check
-
-REPO = "/repo"
+from orchestrate.common import run_check, REPO
 
 # ---------------------------------------------------------------- census (structure pins)
 # The variant lists the Coq inductives of Model/Retry.v were written from.  A new / renamed /
@@ -225,11 +223,12 @@ def e2e_post(lines, kind, floors):
         return [("diff", sk[0], "diff e2e tie not exercised: %d of %d scenarios could not start (%s)"
                  % (len(sk), len(e), sk[0].split("|", 1)[1].strip()))]
     out = []
-    if len(e) - len(sk) < 200:
+    if len(e) - len(sk) < 200:  # 260 are generated; the cap on not-run scenarios is max(3, 2 %)
         out.append(("diff", kind, "diff e2e floor: only %d %s scenarios ran (floor 200)" % (len(e) - len(sk), kind)))
+    # the cap above tolerates a few scenarios that could not start; the shapes are scenarios like the others
     shapes = {ln.split()[1] for ln in e if not _skipped(ln) and len(ln.split()[1]) == 1}
-    if len(shapes) < 14:
-        out.append(("diff", kind, "diff e2e floor: only %d of the 14 fixed-shape scenarios ran" % len(shapes)))
+    if len(shapes) < 11:
+        out.append(("diff", kind, "diff e2e floor: only %d of the 14 fixed-shape scenarios ran (floor 11)" % len(shapes)))
     recs = _records(lines, kind)
     for what, pred, floor in floors:
         n = sum(1 for t in recs if pred(t))
@@ -375,7 +374,7 @@ SPEC = {
              "a mock cluster of 2-4 nodes (40 % with 2 or 3 shards per node and one connection per shard) + one real Session + 3-9 logical requests through query_unpaged / "
              "execute_unpaged / batch / query_single_page / execute_single_page / query_iter / execute_iter (1-3 pages), "
              "idempotence flag, retry policy {Default, DowngradingConsistency, Fallthrough}, speculative policy {none, "
-             "Simple(max 1-3, 30 ms)} and consistency (incl. SERIAL / LOCAL_SERIAL) taken from the statement, from an own "
+             "Simple(max 0-3, 30 ms)} and consistency (incl. SERIAL / LOCAL_SERIAL) taken from the statement, from an own "
              "execution profile or from the session's default profile; the mock answers the k-th frame of a page with the "
              "k-th scripted outcome (ERROR frames of the C06 error domain, unparsable ERROR body, UNPREPARED to an EXECUTE, cut "
              "connection, delay, success); 1 request in 14 carries a 100 ms client-side request timeout against a 300 ms answer; per logical "
@@ -404,7 +403,12 @@ SPEC = {
         "the hook tie (F) drives the single-fiber path; the e2e tie (E6) also runs idempotent requests with a speculative "
         "policy and judges every fiber separately (which fiber's result must be returned is C13's subject)",
         "e2e: a target skipped because its pool had no connection is invisible to the mock; the certificate may skip "
-        "only nodes whose connection the mock has cut before (scripted drop); client-side request timeout is off",
+        "only nodes whose connection the mock has cut before (scripted drop)",
+        "e2e: 1 request in 14 carries a 100 ms client-side request timeout (all other requests: none); 40 % of the scenarios "
+        "run on nodes with 2-3 shards (one connection per shard); *_iter requests on sharded nodes fetch one page; "
+        "UnableToAllocStreamId and the Percentile policy are not produced end to end",
+        "e2e: scenarios that cannot start (mock / session / prepare failure, pools not filled within 20 s) are counted "
+        "not-run (skip-env) and fail the check above max(3, 2 %)",
         "new_session is pure, so creating the session lazily at the first error equals creating it up front",
     ],
     "post": post,
